@@ -50,7 +50,8 @@ theorem C01_pack_exact (h : Sph) (wf : WF h) : h.pack = .ok (Spec.octets h) := b
 theorem C01_pack_len (h : Sph) (wf : WF h) : ∃ b, h.pack = .ok b ∧ b.length = 6 :=
   ⟨_, C01_pack_exact h wf, rfl⟩
 
-private theorem unpack_eq (d : Bytes) (h6 : 6 ≤ d.length) :
+/-- equational characterisation of the decoder (helper, reused by C02/C03/C15) -/
+theorem unpack_eq (d : Bytes) (h6 : 6 ≤ d.length) :
     Sph.unpack d = .ok ⟨d[0].toNat / 32, d[0].toNat / 16 % 2, d[0].toNat / 8 % 2,
       d[0].toNat % 8 * 256 + d[1].toNat, d[2].toNat / 64, d[2].toNat % 64 * 256 + d[3].toNat,
       d[4].toNat * 256 + d[5].toNat⟩ := by
